@@ -376,17 +376,21 @@ where
         let mut h = DefaultHasher::new();
         value.hash(&mut h);
         value.get_data_type().hash(&mut h);
-        let hv = h.finish();
+        let mut hv = h.finish();
 
-        match self.cache.get(&hv) {
-            Some(addr) => Ok(*addr),
-            None => {
-                let addr = self.data.len();
-                self.data.push(value);
-                self.cache.insert(hv, addr);
-                Ok(addr)
+        // the table is keyed by a 64-bit hash, not by the value: an entry only counts as a hit when the value stored
+        // there is equal to the one being added, an entry of another value with the same key is stepped over
+        while let Some(addr) = self.cache.get(&hv) {
+            match self.data.get(*addr) {
+                Some(existing) if *existing == value => return Ok(*addr),
+                _ => hv = hv.wrapping_add(1),
             }
         }
+
+        let addr = self.data.len();
+        self.data.push(value);
+        self.cache.insert(hv, addr);
+        Ok(addr)
     }
 
     pub(crate) fn add_to_current_char_list(&mut self, from: usize, depth: usize) -> Result<(), DataError> {
